@@ -3,6 +3,7 @@ table): which calls look up, write, remove; which run a caller closure under
 the shard lock.  Every model emits a 'map' event so that rules can read the
 sequence of map operations of a path."""
 from absint import (
+    split_option,
     DIVERGE,
     TOP,
     ClosureV,
@@ -174,7 +175,16 @@ def m_retain(I, st, t, args, site, depth):
     stored = ("stored_any", mp, n)
     out = []
     for s2, b in I.invoke(st.fork(), f, [("key_any", n), stored], depth, site, label="under_lock:retain"):
-        _ev(I, s2, t, site, "retain", map=mp, pred=b, removes="predicate")
+        newv = s2.mem.get(("H", stored))
+        if b == 0 and newv is None:
+            # retain(|_, _| false): every entry goes — this is what DashMap::clear does
+            _ev(I, s2, t, site, "clear", map=mp, removes="all", via="retain")
+        elif b == 1:
+            # every entry is kept; the closure may have rewritten it in place through its &mut V: the per-item rewrite of
+            # alter_all (same shard-by-shard locking)
+            _ev(I, s2, t, site, "alter_all", map=mp, old=stored, value=newv if newv is not None else stored, pc_len=len(s2.pc), via="retain")
+        else:
+            _ev(I, s2, t, site, "retain", map=mp, pred=b, removes="predicate")
         out.append((s2, TupleV([])))
     return out
 
@@ -213,6 +223,36 @@ def m_guard_key(I, st, t, args, site, depth):
     if lk is None:
         return None
     return [(st, lk[3] if lk[0] == "lookup" else lk[2])]
+
+
+def m_view(I, st, t, args, site, depth):
+    """DashMap::view(key, f) = get(key).map(|r| f(r.key(), r.value())): the closure runs under the shard's read lock"""
+    mp, key = tform(args[0]), tform(deref_arg(I, st, args[1]))
+    term = ("lookup", "get", mp, key, _n(st))
+    _ev(I, st, t, site, "get", map=mp, key=key, result=term)
+    out = []
+    for s2, var, payload in split_option(I, st, term):
+        if var == "Some":
+            for s3, r in I.invoke(s2, args[2], [key, ("deref", payload)], depth, site, label="under_lock:view"):
+                out.append((s3, Some(r)))
+        else:
+            out.append((s2, NoneV()))
+    return out
+
+
+def m_entry_insert(I, st, t, args, site, depth):
+    """Entry::insert(value) / insert_entry(value): stores the value whatever the entry was (the entry's lock is held)"""
+    ent = _entry_root(I, st, args[0])
+    lk = lookup_of(ent)
+    _ev(I, st, t, site, "entry_insert", map=lk[2] if lk else None, key=lk[3] if lk else None, value=args[1], write="upsert", via=ent)
+    return [(st, ("deref", ("inserted", ent)))]
+
+
+def m_vac_insert_entry(I, st, t, args, site, depth):
+    vac = _entry_root(I, st, args[0])
+    lk = lookup_of(vac)
+    _ev(I, st, t, site, "vacant_insert", map=lk[2] if lk else None, key=lk[3] if lk else None, value=args[1], write="insert-absent", via=vac)
+    return [(st, ("inserted", vac))]
 
 
 def m_occ_insert(I, st, t, args, site, depth):
@@ -270,6 +310,10 @@ STORE_MODELS = {
     "dashmap::mapref::one::Ref::key": m_guard_key,
     "dashmap::mapref::one::RefMut::key": m_guard_key,
     "dashmap::mapref::entry::OccupiedEntry::key": m_guard_key,
+    DM + "view": m_view,
+    "dashmap::mapref::entry::Entry::insert": m_entry_insert,
+    "dashmap::mapref::entry::Entry::insert_entry": m_entry_insert,
+    "dashmap::mapref::entry::VacantEntry::insert_entry": m_vac_insert_entry,
     "dashmap::mapref::entry::OccupiedEntry::get": m_occ_get,
     "dashmap::mapref::entry::OccupiedEntry::get_mut": m_occ_get,
     "dashmap::mapref::entry::OccupiedEntry::into_ref": m_occ_get,
